@@ -8,8 +8,8 @@ ENGINES = {
         #             walk after it; the Lean driver recomputes every entry with the allocator model (Pages.step).
         #  sql cases: after every statement of a history on a real Database the whole file is dumped (every page: kind, links,
         #             children, overflow chains; header; roots of all trees of the catalog), as a delta; the Lean driver answers
-        #             `ok` iff checkOwnership (proved sound) accepts every dump and the file never grew while the earlier
-        #             free list was still in place.
+        #             `ok` iff checkOwnership (proved sound) accepts every dump, C10's checkTree (proved sound) accepts every tree
+        #             with numeric keys, and the file never grew while the earlier free list was still in place.
         "mode": "judge",
         "op_sep": " ; ",
     },
@@ -45,8 +45,9 @@ PROP = {
         "still there, untouched, as a prefix of the later one (the allocator pops at the head and appends at the tail, so a statement that "
         "extends the file legitimately has emptied the list first; the old list can only reappear as a prefix if the same statement freed "
         "exactly those pages again, first and in the same order)",
-        "keys are not decoded for the trees of a database (no order check here: C10 judges order on its own trees); the per-tree part used "
-        "by C11 is that the page graph below every root is a tree without shared pages",
+        "C10's checkTree is applied to the trees with numeric keys (tables and the meta table: BigUInt row id; indexes on a BIGINT column: "
+        "key + 2^63), with the keys read by the C10 facade at the offset the code's comparator reads them; the meta index and indexes on TEXT "
+        "columns are judged for shape and ownership only (the page graph below the root is a tree without shared pages)",
     ],
     "partial": "All theorems of the design are proved in full for the allocator model and for the checker (27 theorems, no partial statement). "
                "Not proved, by design: that the B+tree code produces the page graphs it produces (validated by judging the dump after every "
@@ -68,8 +69,8 @@ TEXT = {
             "used and free pages partition the file, an allocation never extends the file while a free page exists and returns the head, "
             "pages are reused in the order in which they were freed, page 0 is rejected, and what a double free does is stated (tail: nothing; "
             "elsewhere: the rest of the list is lost). Tie: exact page ids / errors / headers / free-list walks of ~100 allocator sequences "
-            "(1000 thorough) against the model, and checkOwnership + reuse-before-growth on the dump taken after every statement of 77 SQL "
-            "histories (~22 000 dumps quick, ~450 000 thorough).",
+            "(1000 thorough) against the model, and checkOwnership + C10's checkTree per numeric-key tree + reuse-before-growth on the dump taken "
+            "after every statement of 77 SQL histories (~22 000 dumps quick, ~450 000 thorough).",
     "design_ref": "DESIGN.md §5 C11",
     "note": "Trusted: Lean kernel + propext/Quot.sound/Classical.choice; dump facade and harness canonicalisation; the rule deciding which "
             "catalog rows own a tree. Three defects were fixed in /repo (freed overflow page kept its next link; VACUUM leaked the tree of a "
